@@ -30,6 +30,9 @@ type C16Script struct {
 	// Pad > 0: that many zero bytes precede Stream (generated on the fly, not stored):
 	// search bounds and counters that only matter megabytes into a stream
 	Pad int `json:"pad,omitempty"`
+	// PadByte: the byte the pad consists of (0, or 0x47: millions of sync bytes, every one a
+	// candidate that has to be rejected - 47 47 47 47 has adaptation_field_control 00)
+	PadByte int `json:"pad_byte,omitempty"`
 }
 
 type c16 struct{}
@@ -48,7 +51,7 @@ func (c16) Info() core.Info {
 			"oracle is a reference scan written from the property statement (first i with s[i]=0x47, i+4<=len, AFC!=00, PID not in 4..15)",
 			"an injected reader error delivered before the header's 4th byte may surface as that error; nothing else is relaxed",
 		},
-		RequiredProbes: []string{"false_sync_afc0", "false_sync_reserved_pid", "false_sync_then_true", "sync_in_last_3", "notfound", "found_at_0", "preread", "sync_again", "sync_after_failed_search", "long_prefix"},
+		RequiredProbes: []string{"false_sync_afc0", "false_sync_reserved_pid", "false_sync_then_true", "sync_in_last_3", "notfound", "found_at_0", "preread", "sync_again", "sync_after_failed_search", "long_prefix", "millions_of_rejected_sync_bytes"},
 	}
 }
 
@@ -134,8 +137,12 @@ func validPacketFixed() []byte {
 	return p
 }
 
-// zeros yields n zero bytes without storing them.
-type zeros struct{ n int }
+// zeros yields n equal bytes (zero unless b is set) without storing them.
+type zeros struct {
+	n int
+	b byte
+	c *core.Ctx
+}
 
 func (z *zeros) Read(p []byte) (int, error) {
 	if z.n <= 0 {
@@ -146,38 +153,59 @@ func (z *zeros) Read(p []byte) (int, error) {
 		k = z.n
 	}
 	for i := 0; i < k; i++ {
-		p[i] = 0
+		p[i] = z.b
+	}
+	if z.c != nil && z.n>>20 != (z.n-k)>>20 {
+		z.c.Tick() // data is moving: a search over tens of megabytes legitimately takes a while
 	}
 	z.n -= k
 	return k, nil
 }
 
-// c16Long: the scripted stream preceded by Pad zero bytes.
+// c16Long: the scripted stream preceded by Pad generated bytes.
 func c16Long(s *C16Script, c *core.Ctx) {
 	stream := []byte(s.Stream)
-	want := refSync(stream)
+	// absolute offset of the first plausible header in pad+stream, -1 if none
+	wantAbs := -1
+	if w := refSync(stream); w >= 0 {
+		wantAbs = s.Pad + w
+	}
+	if s.PadByte != 0 && s.Pad >= 3 {
+		// the last three pad bytes can themselves start the first plausible header
+		b := byte(s.PadByte)
+		if w := refSync(append([]byte{b, b, b}, stream...)); w >= 0 {
+			wantAbs = s.Pad - 3 + w
+		}
+		c.Probe("millions_of_rejected_sync_bytes")
+	}
 	c.Probe("long_prefix")
-	c.Log("c16 long pad=%d len=%d want=%d", s.Pad, len(stream), want)
+	c.Log("c16 long pad=%d len=%d want=%d", s.Pad, len(stream), wantAbs)
 	c.Unit("stream_bytes", int64(s.Pad+len(stream)))
-	br := bufio.NewReaderSize(io.MultiReader(&zeros{n: s.Pad}, bytes.NewReader(stream)), 4096)
+	br := bufio.NewReaderSize(io.MultiReader(&zeros{n: s.Pad, b: byte(s.PadByte), c: c}, bytes.NewReader(stream)), 4096)
 	var off int64
 	var err error
 	if !c.Call("packet.Sync(long stream)", func() { off, err = packet.Sync(br) }) {
 		return
 	}
-	if want < 0 {
+	if wantAbs < 0 {
 		if err != gots.ErrSyncByteNotFound {
 			c.Fail("notfound", "long:found_where_none_exists", fmt.Sprint(off, err), "ErrSyncByteNotFound")
 		}
 		return
 	}
-	if err != nil || off != int64(s.Pad+want) {
-		c.Fail("offset", "long:header_far_into_the_stream_missed", fmt.Sprint(off, err), s.Pad+want)
+	if err != nil || off != int64(wantAbs) {
+		c.Fail("offset", "long:header_far_into_the_stream_missed", fmt.Sprint(off, err), wantAbs)
 		return
 	}
 	got, _ := io.ReadAll(br)
-	if !bytes.Equal(got, stream[want:]) {
-		c.Fail("position", "long:reader_not_at_header", len(got), len(stream)-want)
+	var exp []byte
+	if wantAbs >= s.Pad {
+		exp = stream[wantAbs-s.Pad:]
+	} else {
+		exp = append(bytes.Repeat([]byte{byte(s.PadByte)}, s.Pad-wantAbs), stream...)
+	}
+	if !bytes.Equal(got, exp) {
+		c.Fail("position", "long:reader_not_at_header", len(got), len(exp))
 	}
 }
 
@@ -255,6 +283,9 @@ func (c16) Gen(r *core.Rand, tier string) interface{} {
 	}
 	if r.Chance(1, 3000) {
 		s.Pad = r.Pick(70000, 1000000, 1900000, 2500000)
+		if r.Chance(1, 3) {
+			s.PadByte = 0x47
+		}
 		s.PreRead, s.Scanner, s.BufSize = 0, "bufio", 4096
 	}
 	return s
@@ -278,9 +309,9 @@ const c16Printable = 95 * 95 * 95
 
 func (c16) SweepSize(tier string) int {
 	if tier == "thorough" {
-		return c16Sweep + c16Printable + 1<<24
+		return c16Sweep + c16Printable + 1<<24 + 1
 	}
-	return c16Sweep + c16Printable
+	return c16Sweep + c16Printable + 1
 }
 
 func c16HeaderCase(b1, b2, b3 byte, lead int) *C16Script {
@@ -302,6 +333,16 @@ func c16HeaderCase(b1, b2, b3 byte, lead int) *C16Script {
 }
 
 func (c16) SweepCase(tier string, i int) interface{} {
+	if i == (c16{}).SweepSize(tier)-1 {
+		// 24 million sync bytes, each a candidate to reject, then a packet: whatever a search
+		// keeps per rejected candidate (a stack frame, a list entry) shows at this size
+		pkt := make([]byte, 188)
+		pkt[0], pkt[1], pkt[2], pkt[3] = 0x47, 0x00, 0x00, 0x10 // (the three sync bytes before it give 47 47 47 47: rejected)
+		for k := 4; k < 188; k++ {
+			pkt[k] = byte(k)
+		}
+		return &C16Script{Stream: pkt, Scanner: "bufio", BufSize: 4096, Pad: 24000000, PadByte: 0x47}
+	}
 	if i >= c16Sweep+c16Printable {
 		v := i - c16Sweep - c16Printable
 		return c16HeaderCase(byte(v>>16), byte(v>>8), byte(v), v%3)
